@@ -291,6 +291,14 @@ def cast_row(ctx, I, b, bb, st, term, fr, to, need):
     t = strip_casts(term)
     g_ = _c05.assert_guards(b, bb)
     # index < count guards with a count bounded by an invariant
+    if to == 'u16' and fr == 'u32' and t[0] == 'next':
+        # a loop variable of 0..num_layers(): below the layer count, which I13 caps at 65536
+        rg = q.unwrap_into_iter(t[1])
+        if rg[0] == 'agg' and rg[1] == 'std::ops::Range':
+            rf = dict(rg[3])
+            if q.const_val(rf['start']) == 0 and _c05.is_count(strip_casts(rf['end']), 'layers'):
+                ok, why = need('I13')
+                return ok, 'loop variable of 0..num_layers() <= 65536: ' + why
     if to == 'u16' and fr == 'u32':
         for op, a, c in g_:
             if op == 'Lt' and a == t and _c05.is_count(c, 'layers'):
